@@ -152,6 +152,10 @@ func Symbolic() bool { return false }
 // function runs; a counterexample that depends on the stub does not replay.
 func Replace(name string, fn any) {}
 
+// PermuteMapsIn limits the arbitrary iteration order to maps ranged in functions whose name contains substr
+// (engine only; natively the runtime picks the order). An empty string switches it off.
+func PermuteMapsIn(substr string) {}
+
 // PermuteMaps makes every map iteration order a symbolic choice (engine only).
 func PermuteMaps(on bool) {}
 
